@@ -9,7 +9,7 @@ from vmon.oracle.util import deep_diff, clone
 
 PROPERTY = "C12"
 RULE = ("Generated structures (1-7 atoms, all four term kinds incl. impropers, tables, extra columns, unique atom ids) "
-        "in orthorhombic, LAMMPS-triclinic (all tilt signs) and arbitrarily rotated cells, replicated by EVERY factor "
+        "in orthorhombic, LAMMPS-triclinic (all tilt signs), arbitrarily rotated triclinic and rotated orthorhombic cells, replicated by EVERY factor "
         "triple in {1..F}^3 (F=3 quick, 5 thorough). Oracle: every original id appears exactly once per image offset "
         "i*A+j*B+k*C with identical resolved type data, charge, group; cell rows a*A,b*B,c*C; every term copied within "
         "each image with its resolved type and extras; tables unchanged; input object deep-equal to its snapshot; "
@@ -29,7 +29,7 @@ def cases(tier, seed):
     rng = np.random.default_rng([12, seed])
     F, per = (3, 4) if tier == "quick" else (5, 24)
     out = []
-    for ci, cellkind in enumerate(("ortho", "tri", "rotated")):
+    for ci, cellkind in enumerate(("ortho", "tri", "rotated", "rotated_ortho")):
         for j in range(per):
             s = int(rng.integers(1 << 30))
             for dims in itertools.product(range(1, F + 1), repeat=3):
@@ -160,8 +160,8 @@ def requirements(stats, tier):
     F = 3 if tier == "quick" else 5
     if stats.nseen("dims") < F ** 3:
         need.append("only %d of %d factor triples observed" % (stats.nseen("dims"), F ** 3))
-    if stats.nseen("cell_kind") < 3:
-        need.append("not all three cell classes observed")
+    if stats.nseen("cell_kind") < 4:
+        need.append("not all four cell classes observed")
     if stats.nseen("term_kinds_present") < (8 if tier == "quick" else 14):
         need.append("combinations of present/absent term kinds observed: %s" % sorted(stats.sets.get("term_kinds_present", [])))
     if stats.get("with_impropers") < 10:
